@@ -514,8 +514,19 @@ func VH_C11_session() {
 			rt.Assert(err == nil, "new-bug"+tag)
 			rt.Cover("new-bug")
 		case 2:
-			for _, res := range vhDrain(c.MergeAll("origin")) {
-				rt.Assert(res.Err == nil && res.Status != entity.MergeStatusInvalid, "valid-remote-merges"+tag)
+			if rt.Choose(2) == 0 {
+				for _, res := range vhDrain(c.MergeAll("origin")) {
+					rt.Assert(res.Err == nil && res.Status != entity.MergeStatusInvalid, "valid-remote-merges"+tag)
+				}
+			} else {
+				// a pull whose fetch brings nothing new (the refs were fetched before,
+				// without being merged): what is there must still be merged
+				w.r.FetchOut = "already up-to-date"
+				rt.Assert(c.Pull("origin") == nil, "pull"+tag)
+				rt.Assert(w.r.Fetches > 0, "pull-fetches"+tag)
+				_, perr := c.Bugs().ResolveExcerpt(id2)
+				rt.Assert(perr == nil, "pull-merges-what-was-fetched-before"+tag)
+				rt.Cover("pull")
 			}
 			rt.Cover("merge")
 		case 3:
